@@ -4,6 +4,6 @@ cd /verif
 for id in "$@"; do
   d=/verif/seeded/$id
   [ -f $d/patch.diff ] || continue
-  tools/seedtest.sh $d/patch.diff $id quick > $d/check_output.txt 2>&1
+  tools/seedtest.sh $d/patch.diff ${id:0:3} quick > $d/check_output.txt 2>&1
   grep -E "^(VIOLATION|exit=)" $d/check_output.txt | head -5
 done
